@@ -48,7 +48,9 @@ Record pobs := mkP {
   p_fmap : bool;     (* fresh: new Map([[a,1]]).get(b) === 1 *)
   p_fmap_rev : bool; (* fresh: new Map([[b,1]]).get(a) === 1 *)
   p_fset : bool;     (* fresh: new Set([a,b]).size === 1 *)
-  p_fhash : bool     (* fresh: VerifHashEq(a, b) *)
+  p_fhash : bool;    (* fresh: VerifHashEq(a, b) *)
+  p_flt : bool;      (* fresh: a < b, first thing (before anything scanned either operand) *)
+  p_fgt : bool       (* fresh: a > b, first thing *)
 }.
 
 Record tcase := mkCase { c_a : expr; c_b : expr; c_oa : sobs; c_ob : sobs; c_p : pobs; c_ok : bool }.
@@ -69,7 +71,8 @@ Definition s_pair (c : tcase) : bool :=
   && Bool.eqb (p_lt p) (is_lt cmp) && Bool.eqb (p_gt p) (is_gt cmp)
   && Bool.eqb (p_map p) eqv && Bool.eqb (p_map_rev p) eqv && Bool.eqb (p_obj p) eqv
   && implb eqv (p_hash p)
-  && Bool.eqb (p_fmap p) eqv && Bool.eqb (p_fmap_rev p) eqv && Bool.eqb (p_fset p) eqv && implb eqv (p_fhash p).
+  && Bool.eqb (p_fmap p) eqv && Bool.eqb (p_fmap_rev p) eqv && Bool.eqb (p_fset p) eqv && implb eqv (p_fhash p)
+  && Bool.eqb (p_flt p) (is_lt cmp) && Bool.eqb (p_fgt p) (is_gt cmp).
 
 Definition s_agrees (c : tcase) : bool :=
   c_ok c && s_single (c_a c) (c_oa c) && s_single (c_b c) (c_ob c) && s_pair c.
@@ -100,7 +103,8 @@ Definition i_pair (c : tcase) : bool :=
   && Bool.eqb (p_obj p) (objkey_hit a b)
   && Bool.eqb (p_hash p) (list_eqb (hash_bytes a) (hash_bytes b))
   && Bool.eqb (p_fmap p) (map_hit a b) && Bool.eqb (p_fmap_rev p) (map_hit b a) && Bool.eqb (p_fset p) (map_hit a b)
-  && Bool.eqb (p_fhash p) (list_eqb (hash_bytes a) (hash_bytes b)).
+  && Bool.eqb (p_fhash p) (list_eqb (hash_bytes a) (hash_bytes b))
+  && Bool.eqb (p_flt p) (is_lt (compare_to a b)) && Bool.eqb (p_fgt p) (is_lt (compare_to b a)).
 
 Definition i_agrees (c : tcase) : bool :=
   c_ok c && i_single (c_a c) (c_oa c) && i_single (c_b c) (c_ob c) && i_pair c.
